@@ -26,6 +26,9 @@ pub struct Timing {
     pub init_polls: u16,
     /// number of CMD0 frames that go unanswered at power-up
     pub cmd0_ignored: u8,
+    /// further status bits in the top OCR byte (UHS-II 0x20, over-2TB 0x08, S18A 0x01)
+    #[serde(default)]
+    pub ocr_extra: u8,
 }
 
 #[derive(Clone, Debug, Serialize, Deserialize, PartialEq)]
@@ -57,6 +60,8 @@ pub enum Fault {
     GarbageFrom { at: u32, seed: u32 },
     /// the nth SPI transaction fails at the bus level
     SpiError { nth_transaction: u32 },
+    /// a version 2 card whose answer to CMD8 never carries the check pattern
+    WrongCmd8Echo { echo: u8 },
 }
 
 #[derive(Debug)]
@@ -454,7 +459,14 @@ impl CardInner {
                     self.respond(&[r]);
                 } else {
                     let r = self.r1();
-                    self.respond(&[r, 0, 0, (arg >> 8) as u8 & 0x0F, arg as u8]);
+                    let mut echo = arg as u8;
+                    for f in self.faults.clone() {
+                        if let Fault::WrongCmd8Echo { echo: e } = f {
+                            echo = if e == 0xAA { 0x55 } else { e };
+                            self.fault_fired = true;
+                        }
+                    }
+                    self.respond(&[r, 0, 0, (arg >> 8) as u8 & 0x0F, echo]);
                 }
             }
             (false, 55) => {
@@ -489,6 +501,7 @@ impl CardInner {
                     ocr |= 0x8000_0000;
                     if self.kind == Kind::V2Hc {
                         ocr |= 0x4000_0000;
+                        ocr |= ((self.timing.ocr_extra & 0x29) as u32) << 24;
                     }
                     if self.init_state == 3 {
                         self.init_state = 4;
